@@ -1,43 +1,228 @@
-(* C16 -- binary64 target_size against its exact rational value, on a range
-   (finite check by vm_compute lifted to a quantified statement). *)
-From Coq Require Import ZArith List Bool Lia ZifyBool.
-From VV Require Import Base.F64 Valid.ValidDefs Valid.ValidProofs Valid.ValidTarget.
-Local Open Scope Z_scope.
+(* C16 -- the binary64 evaluation of target_size (ValidTarget.v) stays in [1, n):
+   H_target proved for the code's own arithmetic, for every 2 <= n < 2^53.
 
-Fixpoint agree (n : nat) (s : Z) : bool :=
-  match n with
-  | O => true
-  | S k => (tsz_f64 s =? target_q s) && agree k (s + 1)
-  end.
+   Argument (no error analysis needed, only monotonicity of rounding and
+   representable bounds):  ratio = std::min(0.6, x) is a finite double with
+   0 <= ratio <= 0.6d <= 2/3 whatever x = 0.2 + 100/(n+100) rounds to;
+   n * ratio <= 2n/3 <= n - 1 for n >= 3 and n - 1 is representable, so
+   round(n * ratio) <= n - 1; std::max(1.0, .) puts the value in [1, n - 1];
+   truncation keeps it there.  n = 2 by computation. *)
+From Coq Require Import ZArith Reals Lia Lra Psatz Bool List.
+From Flocq Require Import Core IEEE754.BinarySingleNaN.
+From VV Require Import Base.F64 Valid.ValidDefs Valid.ValidTarget.
+Local Open Scope R_scope.
 
-Lemma agree_forall : forall n s0, agree n s0 = true ->
-  forall s, s0 <= s < s0 + Z.of_nat n -> tsz_f64 s = target_q s.
+Notation fexp64 := (SpecFloat.fexp 53 1024).
+Notation R53 := (round radix2 fexp64 (round_mode mode_NE)).
+Lemma d06_R : B2R d_0_6 = F2R (Float radix2 5404319552844595 (-53)).
+Proof. reflexivity. Qed.
+Lemma d02_R : B2R d_0_2 = F2R (Float radix2 7205759403792794 (-55)).
+Proof. reflexivity. Qed.
+Lemma d06_fin : is_finite d_0_6 = true. Proof. reflexivity. Qed.
+Lemma d02_fin : is_finite d_0_2 = true. Proof. reflexivity. Qed.
+
+Lemma d06_bounds : 0 < B2R d_0_6 <= 2/3.
+Proof. rewrite d06_R. unfold F2R. simpl. lra. Qed.
+Lemma d02_bounds : 0 < B2R d_0_2 <= 1.
+Proof. rewrite d02_R. unfold F2R. simpl. lra. Qed.
+
+Lemma fmt_int : forall z : Z, (Z.abs z < 2 ^ 53)%Z -> generic_format radix2 fexp64 (IZR z).
 Proof.
-  induction n as [|k IH]; intros s0 H s Hs; [lia|].
-  cbn [agree] in H. apply andb_prop in H. destruct H as [H1 H2].
-  destruct (Z.eq_dec s s0) as [->|Hne]; [lia|].
-  apply (IH (s0 + 1) H2). lia.
+  intros z Hz. apply (generic_format_FLT radix2 (-1074) 53).
+  apply (FLT_spec radix2 (-1074) 53 (IZR z) (Float radix2 z 0)).
+  - unfold F2R. simpl. ring.
+  - exact Hz.
+  - simpl. lia.
 Qed.
 
-Definition f64_range : Z := 5000.
-
-Lemma agree_computed : agree (Z.to_nat f64_range) 0 = true.
-Proof. vm_compute. reflexivity. Qed.
-
-Lemma tsz_f64_agrees_partial : forall s, 0 <= s < f64_range -> tsz_f64 s = target_q s.
-Proof. intros s Hs. apply (agree_forall _ 0 agree_computed). unfold f64_range in *. lia. Qed.
-
-Lemma tsz_f64_in_range_partial : forall s, 2 <= s < f64_range -> 1 <= tsz_f64 s < s.
-Proof. intros s Hs. rewrite tsz_f64_agrees_partial by lia. apply target_q_ok. lia. Qed.
-
-(* the non-emptiness theorem instantiated with the binary64 target size *)
-Lemma reshuffles_binary64_partial : forall (P : Type) p g ops (st0 : state P) ds tr ds',
-  run_ops P (mkCfg p g tsz_f64) ops st0 ds = Some (tr, ds') -> 2 <= population P st0 < f64_range ->
-  Forall2 (fun o sr => reshuffles (mkCfg p g tsz_f64) o = true ->
-             training (fst sr) <> nil /\ validation (fst sr) <> nil
-             /\ Forall (fun e => diff e = 0 /\ age e = 1) (training (fst sr))) ops tr.
+Lemma rnd_le_fmt : forall a b, a <= b -> generic_format radix2 fexp64 b -> R53 a <= b.
 Proof.
-  intros P p g ops st0 ds tr ds' H Hn.
-  apply (run_ops_reshuffles P _ ops st0 ds tr ds' H); [|lia].
-  unfold target_ok. cbn [tsz]. apply tsz_f64_in_range_partial. exact Hn.
+  intros a b Hab Hb. rewrite <- (round_generic radix2 fexp64 (round_mode mode_NE) b Hb).
+  apply round_le; [apply (fexp_correct 53 1024); reflexivity | apply valid_rnd_round_mode | exact Hab].
+Qed.
+
+Lemma rnd_ge_fmt : forall a b, b <= a -> generic_format radix2 fexp64 b -> b <= R53 a.
+Proof.
+  intros a b Hab Hb. rewrite <- (round_generic radix2 fexp64 (round_mode mode_NE) b Hb).
+  apply round_le; [apply (fexp_correct 53 1024); reflexivity | apply valid_rnd_round_mode | exact Hab].
+Qed.
+
+Lemma fmt_0 : generic_format radix2 fexp64 0.
+Proof. apply generic_format_0. Qed.
+
+Lemma no_ovf : forall x, 0 <= x <= IZR (2 ^ 60) -> Rlt_bool (Rabs x) (bpow radix2 1024) = true.
+Proof.
+  intros x [H0 H1]. apply Rlt_bool_true. rewrite Rabs_pos_eq by exact H0.
+  apply Rle_lt_trans with (1 := H1).
+  change (IZR (2 ^ 60)) with (bpow radix2 60). apply bpow_lt. lia.
+Qed.
+
+Lemma fmt_B : generic_format radix2 fexp64 (bpow radix2 59).
+Proof. apply generic_format_bpow. simpl. unfold SpecFloat.fexp, SpecFloat.emin. lia. Qed.
+
+Lemma B_lt : bpow radix2 59 <= IZR (2 ^ 60).
+Proof. change (IZR (2 ^ 60)) with (bpow radix2 60). apply bpow_le. lia. Qed.
+
+Lemma rnd_range : forall a, 0 <= a <= bpow radix2 59 -> 0 <= R53 a <= IZR (2 ^ 60).
+Proof.
+  intros a [H0 H1]. split.
+  - apply rnd_ge_fmt; [exact H0|apply fmt_0].
+  - apply Rle_trans with (2 := B_lt). apply rnd_le_fmt; [exact H1|apply fmt_B].
+Qed.
+
+Lemma of_Z_ok : forall z, (0 <= z < 2 ^ 53)%Z -> B2R (F64.of_Z z) = IZR z /\ is_finite (F64.of_Z z) = true.
+Proof.
+  intros z Hz. unfold F64.of_Z.
+  pose proof (binary_normalize_correct 53 1024 prec_gt_0_53 prec_lt_emax_53 mode_NE z 0 false) as H.
+  cbv zeta in H.
+  assert (HF : F2R (Float radix2 z 0) = IZR z) by (unfold F2R; simpl; ring).
+  rewrite HF in H.
+  rewrite (round_generic radix2 fexp64 (round_mode mode_NE) (IZR z)) in H by (apply fmt_int; lia).
+  rewrite no_ovf in H.
+  - destruct H as (H1 & H2 & _). split; assumption.
+  - split; [apply IZR_le; lia|apply IZR_le; lia].
+Qed.
+
+Lemma add_ok : forall x y : f64, is_finite x = true -> is_finite y = true ->
+  0 <= B2R x + B2R y <= bpow radix2 59 ->
+  B2R (F64.add x y) = R53 (B2R x + B2R y) /\ is_finite (F64.add x y) = true.
+Proof.
+  intros x y Hx Hy Hr. unfold F64.add.
+  pose proof (Bplus_correct 53 1024 prec_gt_0_53 prec_lt_emax_53 mode_NE x y Hx Hy) as H.
+  rewrite no_ovf in H by (apply rnd_range; exact Hr).
+  destruct H as (H1 & H2 & _). split; assumption.
+Qed.
+
+Lemma mul_ok : forall x y : f64, is_finite x = true -> is_finite y = true ->
+  0 <= B2R x * B2R y <= bpow radix2 59 ->
+  B2R (F64.mul x y) = R53 (B2R x * B2R y) /\ is_finite (F64.mul x y) = true.
+Proof.
+  intros x y Hx Hy Hr. unfold F64.mul.
+  pose proof (Bmult_correct 53 1024 prec_gt_0_53 prec_lt_emax_53 mode_NE x y) as H.
+  rewrite no_ovf in H by (apply rnd_range; exact Hr).
+  destruct H as (H1 & H2 & _). rewrite Hx, Hy in H2. split; assumption.
+Qed.
+
+Lemma div_ok : forall x y : f64, is_finite x = true -> is_finite y = true -> B2R y <> 0 ->
+  0 <= B2R x / B2R y <= bpow radix2 59 ->
+  B2R (F64.div x y) = R53 (B2R x / B2R y) /\ is_finite (F64.div x y) = true.
+Proof.
+  intros x y Hx Hy Hy0 Hr. unfold F64.div.
+  pose proof (Bdiv_correct 53 1024 prec_gt_0_53 prec_lt_emax_53 mode_NE x y Hy0) as H.
+  rewrite no_ovf in H by (apply rnd_range; exact Hr).
+  destruct H as (H1 & H2 & _). rewrite Hx in H2. split; assumption.
+Qed.
+
+Lemma ltb_R : forall x y : f64, is_finite x = true -> is_finite y = true ->
+  F64.ltb x y = Rlt_bool (B2R x) (B2R y).
+Proof.
+  intros x y Hx Hy. unfold F64.ltb, F64.cmp. rewrite (Bcompare_correct 53 1024 x y Hx Hy).
+  unfold Rlt_bool. destruct (Rcompare (B2R x) (B2R y)); reflexivity.
+Qed.
+
+Lemma Rlt_bool_true_inv : forall x y, Rlt_bool x y = true -> x < y.
+Proof. intros x y H. destruct (Rlt_bool_spec x y); [assumption|discriminate]. Qed.
+
+Lemma trunc_bounds : forall (x : f64) (lo hi : Z), is_finite x = true ->
+  IZR lo <= B2R x <= IZR hi -> (1 <= lo)%Z ->
+  exists z, F64.to_Z_trunc x = Some z /\ (lo <= z <= hi)%Z.
+Proof.
+  intros x lo hi Hf [Hlo Hhi] H1.
+  assert (Hlo1 : 1 <= IZR lo) by (apply IZR_le; exact H1).
+  destruct x as [sg| sg| |sg m e Hb]; try discriminate.
+  - cbn [B2R] in Hlo. lra.
+  - cbn [B2R] in Hlo, Hhi. unfold F64.to_Z_trunc.
+    destruct sg.
+    + exfalso. unfold F2R in Hlo. cbn [cond_Zopp Fnum Fexp] in Hlo.
+      assert (0 < bpow radix2 e) by apply bpow_gt_0.
+      assert (IZR (Z.opp (Z.pos m)) < 0) by (apply IZR_lt; lia). nra.
+    + unfold F2R in Hlo, Hhi. cbn [cond_Zopp Fnum Fexp] in Hlo, Hhi.
+      destruct (0 <=? e)%Z eqn:Ee.
+      * apply Z.leb_le in Ee. eexists; split; [reflexivity|].
+        rewrite <- (IZR_Zpower radix2 e Ee) in Hlo, Hhi. rewrite <- mult_IZR in Hlo, Hhi.
+        change (Zpower radix2 e) with (2 ^ e)%Z in Hlo, Hhi.
+        split; apply le_IZR; assumption.
+      * apply Z.leb_gt in Ee. eexists; split; [reflexivity|].
+        set (k := (- e)%Z) in *. assert (Hk : (0 <= k)%Z) by (unfold k; lia).
+        assert (He : e = (- k)%Z) by (unfold k; lia). rewrite He in Hlo, Hhi.
+        rewrite bpow_opp in Hlo, Hhi. rewrite <- (IZR_Zpower radix2 k Hk) in Hlo, Hhi.
+        change (Zpower radix2 k) with (2 ^ k)%Z in Hlo, Hhi.
+        assert (HD : (0 < 2 ^ k)%Z) by (apply Z.pow_pos_nonneg; lia).
+        assert (HDR : 0 < IZR (2 ^ k)) by (apply IZR_lt; exact HD).
+        assert (Hq : 0 < / IZR (2 ^ k)) by (apply Rinv_0_lt_compat; exact HDR).
+        assert (Hinv : / IZR (2 ^ k) * IZR (2 ^ k) = 1) by (apply Rinv_l; lra).
+        assert (A : IZR (lo * 2 ^ k) <= IZR (Z.pos m)) by (rewrite mult_IZR; nra).
+        assert (B : IZR (Z.pos m) <= IZR (2 ^ k * hi)) by (rewrite mult_IZR; nra).
+        apply le_IZR in A. apply le_IZR in B. split.
+        -- apply Z.div_le_lower_bound; lia.
+        -- apply Z.div_le_upper_bound; lia.
+Qed.
+
+Lemma bpow59 : bpow radix2 59 = 576460752303423488.
+Proof. reflexivity. Qed.
+
+Lemma tsz_f64_in_range_ge3 : forall s : Z, (3 <= s < 2 ^ 53)%Z -> (1 <= tsz_f64 s < s)%Z.
+Proof.
+  intros s Hs. change (2 ^ 53)%Z with 9007199254740992%Z in Hs.
+  assert (Hs' : (0 <= s < 2 ^ 53)%Z) by (change (2 ^ 53)%Z with 9007199254740992%Z; lia).
+  destruct (of_Z_ok s Hs') as [sdR sdF].
+  destruct (of_Z_ok 100 ltac:(change (2 ^ 53)%Z with 9007199254740992%Z; lia)) as [cR cF].
+  destruct (of_Z_ok 1 ltac:(change (2 ^ 53)%Z with 9007199254740992%Z; lia)) as [oR oF].
+  fold d_100 in cR, cF. fold d_1 in oR, oF.
+  set (S := IZR s) in *.
+  assert (HS3 : 3 <= S) by (apply IZR_le; lia).
+  assert (HS53 : S < 9007199254740992) by (apply IZR_lt; lia).
+  (* t1 = s + 100.0 *)
+  destruct (add_ok (F64.of_Z s) d_100 sdF cF) as [t1R t1F]; [rewrite sdR, cR, bpow59; lra|].
+  rewrite sdR, cR in t1R.
+  assert (t1lo : 100 <= B2R (F64.add (F64.of_Z s) d_100)).
+  { rewrite t1R. apply rnd_ge_fmt; [lra|apply (fmt_int 100); change (2 ^ 53)%Z with 9007199254740992%Z; lia]. }
+  set (t1 := F64.add (F64.of_Z s) d_100) in *.
+  (* t2 = 100.0 / t1 *)
+  assert (Hq : 0 < / B2R t1) by (apply Rinv_0_lt_compat; lra).
+  assert (Hinv : / B2R t1 * B2R t1 = 1) by (apply Rinv_l; lra).
+  assert (Hdiv : 0 <= B2R d_100 / B2R t1 <= 1) by (rewrite cR; unfold Rdiv; nra).
+  destruct (div_ok d_100 t1 cF t1F) as [t2R t2F]; [lra|rewrite bpow59; lra|].
+  assert (t2b : 0 <= B2R (F64.div d_100 t1) <= 1).
+  { rewrite t2R. split.
+    - apply rnd_ge_fmt; [lra|apply fmt_0].
+    - apply rnd_le_fmt; [lra|apply (fmt_int 1); change (2 ^ 53)%Z with 9007199254740992%Z; lia]. }
+  set (t2 := F64.div d_100 t1) in *.
+  (* t3 = 0.2 + t2 *)
+  pose proof d02_bounds as H02. pose proof d06_bounds as H06.
+  destruct (add_ok d_0_2 t2 d02_fin t2F) as [t3R t3F]; [rewrite bpow59; lra|].
+  assert (t3b : 0 <= B2R (F64.add d_0_2 t2)).
+  { rewrite t3R. apply rnd_ge_fmt; [lra|apply fmt_0]. }
+  set (t3 := F64.add d_0_2 t2) in *.
+  (* ratio = std::min(0.6, t3) *)
+  assert (Hr : is_finite (std_min d_0_6 t3) = true /\ 0 <= B2R (std_min d_0_6 t3) <= 2 / 3).
+  { unfold std_min. rewrite (ltb_R t3 d_0_6 t3F d06_fin).
+    destruct (Rlt_bool (B2R t3) (B2R d_0_6)) eqn:E.
+    - apply Rlt_bool_true_inv in E. split; [exact t3F|lra].
+    - split; [exact d06_fin|lra]. }
+  destruct Hr as [rF rb]. set (r := std_min d_0_6 t3) in *.
+  (* y = s * ratio *)
+  destruct (mul_ok (F64.of_Z s) r sdF rF) as [yR yF]; [rewrite sdR, bpow59; nra|].
+  rewrite sdR in yR.
+  assert (yb : 0 <= B2R (F64.mul (F64.of_Z s) r) <= IZR (s - 1)).
+  { rewrite yR. split.
+    - apply rnd_ge_fmt; [nra|apply fmt_0].
+    - apply rnd_le_fmt; [rewrite minus_IZR; fold S; nra|apply fmt_int; change (2 ^ 53)%Z with 9007199254740992%Z; lia]. }
+  set (y := F64.mul (F64.of_Z s) r) in *.
+  (* target_size = std::max(1.0, y) *)
+  assert (Hm : is_finite (std_max d_1 y) = true /\ IZR 1 <= B2R (std_max d_1 y) <= IZR (s - 1)).
+  { unfold std_max. rewrite (ltb_R d_1 y oF yF).
+    destruct (Rlt_bool (B2R d_1) (B2R y)) eqn:E.
+    - apply Rlt_bool_true_inv in E. rewrite oR in E. split; [exact yF|lra].
+    - split; [exact oF|]. rewrite oR, minus_IZR. fold S. lra. }
+  destruct Hm as [mF mb].
+  destruct (trunc_bounds _ 1 (s - 1) mF mb ltac:(lia)) as (z & Hz & Hzb).
+  unfold tsz_f64, target_f64. fold t1 t2 t3 r y. rewrite Hz. lia.
+Qed.
+
+Theorem tsz_f64_in_range : forall s : Z, (2 <= s < 2 ^ 53)%Z -> (1 <= tsz_f64 s < s)%Z.
+Proof.
+  intros s Hs. destruct (Z.eq_dec s 2) as [->|Hne].
+  - vm_compute. split; [discriminate|reflexivity].
+  - apply tsz_f64_in_range_ge3. lia.
 Qed.
